@@ -10,7 +10,7 @@ LEVEL = 'exploration'
 RULE = ('Hypothesis draws (ping_interval, ping_timeout, grace) from a grid including fractional and '
         'equal values, monitor on/off, 1..4 sessions (WebSocket or polling with a poll always '
         'pending), per session a peer profile - PONG delay in {0, T/2, T-e, T, T+e, 2T} or never '
-        'answering or vanishing - and a schedule of application sends, manual PONGs and clock '
+        'answering or vanishing - and a schedule of application sends, manual PONGs, other client traffic (MESSAGE posts / frames, also from peers that never answer the PING) and clock '
         'steps placed just before / at / just after the next server deadline. Oracle (virtual '
         'time, tolerance 1e-6): PINGs are observed exactly at open+I and at every PONG+I and '
         'nowhere else; a peer whose every PONG arrived within T-e is never disconnected and a ping '
